@@ -163,8 +163,17 @@ pub enum BOp {
     /// generated type method `site` (index into type_calls), explicit id or not, argument variation
     TypeCall(usize, Option<u32>, usize),
     TypePointer(Option<u32>, usize),
-    /// finish: module() -> assemble -> load -> Builder::new_from_module, continue from there
+    /// finish: module() -> Builder::new_from_module, continue from there
     Continue,
+    /// finish: module() -> assemble -> load_words -> Builder::new_from_module (operands now as the PARSER produces them);
+    /// not enabled when the module under construction is not loadable (an open function or block)
+    Reload,
+    /// name(<result id of the k-th function's OpFunction>, "f<k>") (not enabled when there is no k-th function)
+    NameFunction(usize),
+    /// select_function_by_name("f<k>")
+    SelectByName(usize),
+    /// find_return_block_indices(): a query; must not panic, must not change anything
+    FindReturnBlocks,
 }
 
 pub fn op_str(o: &BOp) -> String {
@@ -378,10 +387,54 @@ pub fn replay(h: &[BOp]) -> Replay {
                     ok = true;
                     expected_inst = Some(inst("TypePointer", None, Some(id), vec![Arg::Enum("StorageClass", sc as u32), Arg::IdRef(pointee)]));
                 }
-                BOp::Continue => {
-                    // finish the module, push it through assemble -> load, and continue building on it
+                BOp::NameFunction(k) => {
+                    let Some(fid) = cur.fns.get(*k).and_then(|f| f.def.as_ref()).and_then(|d| d.rid) else {
+                        disabled = true;
+                        break 'steps;
+                    };
+                    b.name(fid, format!("f{}", k));
+                    ok = true;
+                }
+                BOp::SelectByName(k) => ok = b.select_function_by_name(&format!("f{}", k)).is_ok(),
+                BOp::FindReturnBlocks => {
+                    let got = b.find_return_block_indices();
+                    let want: Vec<usize> = match sf {
+                        Some(f) => cur.fns[f].blocks.iter().enumerate().filter(|(_, bl)| bl.insts.last().map_or(false, |i| i.name() == "Return" || i.name() == "ReturnValue")).map(|(i, _)| i).collect(),
+                        None => vec![],
+                    };
+                    if got != want {
+                        viol = Some(("wrong-answer:FindReturnBlocks".into(), format!("step {} find_return_block_indices: returned {:?}, the blocks of the selected function ending in OpReturn(Value) are {:?}", step, got, want)));
+                        break 'steps;
+                    }
+                    ok = true;
+                }
+                BOp::Continue | BOp::Reload => {
+                    // finish the module (Reload: push it through assemble -> load), and continue building on it
+                    if *op == BOp::Reload && (sf.is_some() || cur.fns.iter().any(|f| f.end.is_none() || f.blocks.iter().any(|bl| bl.insts.last().map_or(true, |i| !crate::golden::golden().in_class("terminator", &i.name()) && !crate::golden::golden().in_class("either", &i.name()))))) {
+                        disabled = true;
+                        break 'steps;
+                    }
                     let old = std::mem::replace(&mut b, Builder::new());
                     let m = old.module();
+                    let m = if *op == BOp::Reload {
+                        use rspirv::binary::Assemble;
+                        match dr::load_words(m.assemble()) {
+                            Ok(m2) => {
+                                if snap(&m2) != snap(&m) {
+                                    viol = Some(("reload-differs".into(), format!("step {} Reload: the loaded module {} differs from the built one {}", step, snap(&m2).brief(), snap(&m).brief())));
+                                    break 'steps;
+                                }
+                                m2
+                            }
+                            Err(_) => {
+                                // what loads is C05's / C06's business; the history is simply not continued
+                                disabled = true;
+                                break 'steps;
+                            }
+                        }
+                    } else {
+                        m
+                    };
                     let bound = m.header.as_ref().map(|h| h.bound).unwrap_or(0);
                     if bound < next_lo || bound > next_hi {
                         viol = Some(("bound".into(), format!("step {} Continue: header bound {} but the next fresh id lies in [{}, {}]", step, bound, next_lo, next_hi)));
@@ -541,7 +594,26 @@ pub fn replay(h: &[BOp]) -> Replay {
                     }
                 }
                 BOp::SelectFunction(_) | BOp::SelectBlock(_) | BOp::PopInstruction => Pred::Adopt,
-                BOp::Continue => unreachable!(),
+                BOp::NameFunction(k) => {
+                    let mut n = cur.clone();
+                    let fid = cur.fns[*k].def.as_ref().unwrap().rid.unwrap();
+                    n.secs[7].push(inst("Name", None, None, vec![Arg::IdRef(fid), Arg::Str(format!("f{}", k))]));
+                    Pred::Ok { snap: n, sel, fresh: None }
+                }
+                BOp::SelectByName(k) => {
+                    // the first OpName with that string whose target is the result id of some function's OpFunction
+                    let target = cur.secs[7].iter().filter(|i| i.name() == "Name" && i.args.get(1) == Some(&Arg::Str(format!("f{}", k)))).find_map(|i| match i.args.first() {
+                        Some(Arg::IdRef(t)) => cur.fns.iter().position(|f| f.def.as_ref().and_then(|d| d.rid) == Some(*t)),
+                        _ => None,
+                    });
+                    match target {
+                        None => Pred::Fail,
+                        // which block stays selected is not fixed by the statement (only the invariant is): adopt it
+                        Some(idx) => Pred::Ok { snap: cur.clone(), sel: (Some(idx), now_sel.1), fresh: None },
+                    }
+                }
+                BOp::FindReturnBlocks => Pred::Ok { snap: cur.clone(), sel, fresh: None },
+                BOp::Continue | BOp::Reload => unreachable!(),
             };
             let _ = &mut append_block;
             // ---- compare
